@@ -1502,6 +1502,38 @@ impl<'a> Gen<'a> {
                     }
                 }
             }
+            3 if self.r.bool() => {
+                self.idiom("profiling_call_in_expression");
+                // the value of a profiling call is used (a no-op yields nil there); 0-3 arguments, some with side effects,
+                // some of which return false / nothing / several values
+                let f = if self.r.bool() { "profilebegin" } else { "profileend" };
+                let n = self.r.below(4);
+                let mut args = vec![];
+                for _ in 0..n {
+                    args.push(match self.r.below(7) {
+                        0 => Expr::str("label"),
+                        1 => call("exts", vec![Expr::str("lbl")]),
+                        2 => call("extb", vec![]),
+                        3 => call("ext0", vec![]),
+                        4 => call("ext", vec![Expr::str("n")]),
+                        5 => self.multi_call(1),
+                        _ => Expr::False,
+                    });
+                }
+                let c = Expr::call(Expr::field(name("debug"), f), args);
+                match self.r.below(5) {
+                    0 => {
+                        let nm = self.fresh();
+                        out.push(Stmt::Local { names: vec![b(&nm)], values: vec![c], is_const: false });
+                        self.undeclare(&nm);
+                        out.push(Stmt::Call(call("sink", vec![name(&nm)])));
+                    }
+                    1 => out.push(Stmt::Call(call("sink", vec![c, num(0.0)]))),
+                    2 => out.push(Stmt::Call(call("sink", vec![Expr::paren(c)]))),
+                    3 => out.push(Stmt::If { clauses: vec![(c, Block { stmts: vec![Stmt::Call(call("sink", vec![Expr::str("truthy")]))] })], else_block: Some(Block { stmts: vec![Stmt::Call(call("sink", vec![Expr::str("falsy")]))] }) }),
+                    _ => out.push(Stmt::Call(call("sink", vec![Expr::bin(BinOp::Eq, c, Expr::Nil), Expr::str("is-nil")]))),
+                }
+            }
             3 | 4 => {
                 self.idiom("profiling_call");
                 let f = if self.r.bool() { "profilebegin" } else { "profileend" };
@@ -1551,6 +1583,22 @@ impl<'a> Gen<'a> {
                         }
                         4 if depth < 4 => {
                             let inner = vec![Stmt::Local { names: vec![b(&g)], values: vec![num(5.0)], is_const: false }, Stmt::Call(call("sink", vec![name(&g)]))];
+                            out.push(Stmt::Do(Block { stmts: inner }));
+                        }
+                        5 if depth < 4 && self.r.bool() => {
+                            // `_G` is a local table here: its fields are not the global
+                            let inner = vec![
+                                Stmt::Local { names: vec![b("_G")], values: vec![Expr::Table(vec![TableItem::Named(g.clone(), Expr::str("field of a local _G"))])], is_const: false },
+                                Stmt::Call(call("sink", vec![Expr::field(name("_G"), &g), Expr::index(name("_G"), Expr::str(&g))])),
+                            ];
+                            out.push(Stmt::Do(Block { stmts: inner }));
+                        }
+                        5 if depth < 4 && self.r.bool() => {
+                            // a local named like the global does not hide `_G.NAME` / `_G["NAME"]`
+                            let inner = vec![
+                                Stmt::Local { names: vec![b(&g)], values: vec![Expr::str("local of that name")], is_const: false },
+                                Stmt::Call(call("sink", vec![Expr::field(name("_G"), &g), Expr::index(name("_G"), Expr::str(&g)), name(&g)])),
+                            ];
                             out.push(Stmt::Do(Block { stmts: inner }));
                         }
                         5 => {
